@@ -47,6 +47,12 @@ func cliExit(r *Run) {
 		r.Probe("file-at-16KiB")
 		forceAppend0 = t.Bool(1, 2, "append-to-16k-file")
 	}
+	longGap := false
+	if par1Set && t.Bool(1, 10, "many-volumes") {
+		w.R = 18 + t.Draw(12, "nvolumes")
+		longGap = true
+		r.Probe("par1-many-volumes")
+	}
 	rw := r.Materialise(w)
 	os.MkdirAll(rw.Real("/elsewhere"), 0755)
 	setDir := rw.Real(w.Dir)
@@ -205,6 +211,9 @@ func cliExit(r *Run) {
 	// ---- state ----
 	states := []string{"intact", "repairable", "unrepairable", "no-parity", "damaged-index", "missing-index", "recovery-subset-lost", "damaged-recovery-file"}
 	state := states[t.Pick([]int{2, 5, 3, 2, 1, 1, 2, 1}, "state")]
+	if longGap && t.Bool(2, 3, "long-gap-state") {
+		state = "recovery-subset-lost"
+	}
 	recoveryDamaged := false
 	r.Probe("state:" + state)
 	recPaths := w.RecoveryPaths()
@@ -312,6 +321,21 @@ func cliExit(r *Run) {
 			state = "no-parity+damaged"
 		}
 	case "recovery-subset-lost":
+		if longGap {
+			// a long run of low-numbered volumes is gone, a few high ones remain
+			keep := 1 + t.Draw(3, "keep-high")
+			for i, p := range recPaths {
+				if i < len(recPaths)-keep {
+					w.Disk.Remove(p)
+				}
+			}
+			r.Logf("state: all but the %d highest-numbered volumes deleted", keep)
+			if t.Bool(2, 3, "and-damage") {
+				garble(t.Draw(len(w.Files), "which"))
+				state = "recovery-subset-lost+damaged"
+			}
+			break
+		}
 		// some (not all) recovery files are gone - e.g. the first one, which
 		// leaves a gap in the numbering - with the data intact or damaged
 		lost := 0
